@@ -794,3 +794,183 @@ def check_C14(inp):
 
 
 CHECKS = {k[6:]: v for k, v in list(globals().items()) if k.startswith("check_")}
+
+
+def run_builder(version, all_metrics, answers, no_colors=True):
+    """drive ask_interactively with scripted stdin; returns (result | exception name, unread answers)"""
+    import builtins
+    import contextlib
+    import io
+
+    L = lib()
+    from cvss import interactive as IA
+
+    it = iter(answers)
+    used = [0]
+
+    def fake_input(*a):
+        try:
+            x = next(it)
+        except StopIteration:
+            raise EOFError()
+        used[0] += 1
+        return x
+
+    saved = IA.string_input
+    IA.string_input = fake_input
+    buf = io.StringIO()
+    try:
+        with contextlib.redirect_stdout(buf):
+            r = IA.ask_interactively(version, all_metrics, no_colors)
+    except EOFError:
+        r = EOFError
+    finally:
+        IA.string_input = saved
+    return r, used[0], buf.getvalue()
+
+
+def check_C16(inp):
+    """scripted session: the builder returns exactly the first legal answer per metric"""
+    version = inp["version"]
+    all_metrics = inp["all_metrics"]
+    answers = inp["answers"]
+    ver = {2: "2", 3.0: "3", 3.1: "3", 4.0: "4"}[version]
+    sp = spec_of(ver)
+    nd = nd_of(ver)
+    prefix = {2: "", 3.0: "CVSS:3.0/", 3.1: "CVSS:3.1/", 4.0: "CVSS:4.0/"}[version]
+    metrics = list(sp.ORDER) if all_metrics else list(sp.BASE)
+    # expected by the property statement
+    pos = 0
+    fields = []
+    eof = False
+    for m in metrics:
+        while True:
+            if pos >= len(answers):
+                eof = True
+                break
+            a = answers[pos].strip()
+            pos += 1
+            if a == "":
+                a = nd
+            hit = [v for v in sp.VALUES[m] if v.upper() == a.upper()]
+            if hit:
+                fields.append("%s:%s" % (m, hit[0]))
+                break
+        if eof:
+            break
+    got, used, out = run_builder(version, all_metrics, answers)
+    # a second session in the same process must behave the same (no state carried over)
+    got2, used2, _ = run_builder(version, all_metrics, answers)
+    if got2 != got or used2 != used:
+        return "a second identical session behaves differently: %r vs %r" % (got2, got)
+    if eof:
+        if got is not EOFError:
+            return "end of input: expected EOFError, got %r" % (got,)
+        return None
+    want = prefix + "/".join(fields)
+    if got != want:
+        return "answers %r: builder returned %r, expected %r" % (answers[:12], got, want)
+    if used != pos:
+        return "builder consumed %d answers, expected %d" % (used, pos)
+    try:
+        cls_of(ver)(got)
+    except Exception as e:  # noqa
+        return "the class rejects the built vector %r: %s" % (got, type(e).__name__)
+    return None
+
+
+CHECKS = {k[6:]: v for k, v in list(globals().items()) if k.startswith("check_")}
+
+
+def check_C17(inp):
+    """run the calculator as a subprocess and compare its output with the library API"""
+    import subprocess
+
+    argv = inp["argv"]
+    stdin = inp.get("stdin")
+    env = dict(os.environ)
+    env["PYTHONPATH"] = REPO
+    p = subprocess.run([sys.executable, "-m", "cvss.cvss_calculator"] + argv, input=stdin if stdin is not None else "",
+                       capture_output=True, text=True, env=env, cwd=REPO, timeout=60)
+    if p.returncode != 0:
+        return "exit status %d for %r; stderr: %s" % (p.returncode, argv, p.stderr.strip()[-300:])
+    if "Traceback" in p.stderr:
+        return "traceback on stderr for %r" % (argv,)
+    if "-v" not in argv:
+        return None  # interactive sessions: only clean termination is checked here (C16 covers the builder)
+    vec = argv[argv.index("-v") + 1]
+    ver = "2" if "-2" in argv else "4" if "-4" in argv else "3"
+    C = cls_of(ver)
+    L = lib()
+    out = p.stdout
+    try:
+        c = C(vec)
+    except L.CVSSError as e:
+        if out.strip() != str(e).strip():
+            return "invalid vector %r: printed %r, library message %r" % (vec, out.strip()[:200], str(e)[:200])
+        return None
+    lines = out.split("\n")
+    exp = ["CVSS" + ver]
+    sc = c.scores()
+    sv = c.severities()
+    for i, nm in enumerate(["Base Score", "Temporal Score", "Environmental Score"][: len(sc)]):
+        head = nm + ":" + " " * (24 - len(nm) - 2)
+        exp.append(head + (("%s (%s)" % (sc[i], sv[i])) if ver != "2" else "%s" % (sc[i],)))
+    exp.append("Cleaned vector:        " + c.clean_vector())
+    exp.append("Red Hat vector:        " + c.rh_vector())
+    if lines[: len(exp)] != exp:
+        bad = [k for k in range(len(exp)) if k >= len(lines) or lines[k] != exp[k]][0]
+        return "argv %r: line %d is %r, expected %r" % (argv, bad, lines[bad] if bad < len(lines) else None, exp[bad])
+    rest = "\n".join(lines[len(exp):]).strip()
+    if "-j" in argv:
+        if not rest.startswith("CVSS vector in JSON:"):
+            return "-j: JSON header missing"
+        doc = json.loads(rest[len("CVSS vector in JSON:"):])
+        want = json.loads(json.dumps(c.as_json(sort=True, minimal=True)))
+        if doc != want or list(doc.keys()) != list(want.keys()):
+            return "-j: printed JSON differs from the sorted minimal as_json()"
+    elif rest:
+        return "unexpected extra output %r" % rest[:100]
+    return None
+
+
+CHECKS = {k[6:]: v for k, v in list(globals().items()) if k.startswith("check_")}
+
+
+def check_C13(inp):
+    """text extraction: total, sound, complete for delimited vectors, duplicate-free"""
+    text = inp["text"]
+    expected = inp.get("delimited", [])  # [(version, vector)] placed in the text between delimiters
+    L = lib()
+    from cvss import parser as P
+
+    try:
+        res = P.parse_cvss_from_text(text)
+    except BaseException as e:  # noqa
+        return "parse_cvss_from_text raised %s: %s" % (type(e).__name__, e)
+    if not isinstance(res, list):
+        return "result is not a list"
+    for o in res:
+        ver = {"CVSS2": "2", "CVSS3": "3", "CVSS4": "4"}.get(type(o).__name__)
+        if ver is None:
+            return "foreign object %r in the result" % (o,)
+        v = o.vector
+        if v not in text:
+            return "object built from %r which is not a substring of the text" % (v,)
+        if check_C04({"version": ver, "vector": v}) is not None:
+            return "object built from an invalid vector %r" % (v,)
+    for i in range(len(res)):
+        for j in range(i + 1, len(res)):
+            if res[i] == res[j]:
+                return "two equal objects returned (%r, %r)" % (res[i].vector, res[j].vector)
+    for ver, vec in expected:
+        want = cls_of(ver)(vec)
+        if not any(type(o) is type(want) and o == want for o in res):
+            return "delimited valid v%s vector %r is not returned" % (ver, vec)
+    again = P.parse_cvss_from_text(text)
+    if [(type(o).__name__, o.vector) for o in again] != [(type(o).__name__, o.vector) for o in res]:
+        return "a second call returns the objects in a different order"
+    return None
+
+
+CHECKS = {k[6:]: v for k, v in list(globals().items()) if k.startswith("check_")}
